@@ -52,6 +52,9 @@ def diff_info(a, b):
     return 'value changed'
 
 
+_HELD = []      # (task, argument objects, snapshot taken when that call returned) of the last calls made in this worker
+
+
 def run_task(task):
     bct = import_bct()
     name = task['function']
@@ -80,6 +83,19 @@ def run_task(task):
                 continue                       # the array the caller asked to be modified in place
             if not ei.same(v0, kw[p]):
                 out['fails'].append(('argument-modified', p, diff_info(v0, kw[p])))
+    # HISTORY ACROSS CALLS: the caller keeps its arrays; a routine that stashed a reference to one (cache keyed by size,
+    # memoised 'last input') and writes into it during a LATER call also modifies the caller's array
+    for (t0, kw0, snap0) in _HELD:
+        for p0, v0 in snap0.items():
+            if (isinstance(v0, (np.ndarray, list, tuple, dict)) or ei.is_sparse(v0)) and not ei.same(v0, kw0[p0]):
+                out.setdefault('earlier', {})[p0] = t0
+                out['fails'].append(('argument-modified-by-later-call', p0,
+                                     'argument %s of the earlier call %s(<%s arguments, builder seed %d>%s) changed during this later call: %s'
+                                     % (p0, t0['function'], t0['kind'], t0['bseed'],
+                                        ''.join(', %s=%r' % kv for kv in sorted((t0.get('flags') or {}).items())), diff_info(v0, kw0[p0]))))
+                snap0[p0] = ei.deep_copy(kw0[p0])
+    _HELD.append((task, kw, ei.deep_copy(kw)))
+    del _HELD[:-6]
     if st[0] == 'ok' and first is not None and isinstance(kw.get(first), np.ndarray):
         res = st[1]
         r0 = res[0] if isinstance(res, tuple) and res else res
@@ -150,7 +166,8 @@ def main():
         ck.corr_break('translator namespace resolution', {'only_dynamic': sorted(set(pub) - set(static_pub)),
                                                           'only_static': sorted(set(static_pub) - set(pub))})
     if ck.replay:
-        tasks = [json.load(open(ck.replay))['case']['task']]
+        case = json.load(open(ck.replay))['case']
+        tasks = ([case['earlier_task']] if case.get('earlier_task') else []) + [case['task']]      # a sequence: earlier call, then this one
     else:
         reps = 1 if ck.tier == 'quick' else 8
         tasks = []
@@ -164,6 +181,8 @@ def main():
                         for cp in ([None, False] if has_copy else [None]):
                             tasks.append({'function': name, 'kind': kind, 'flags': fl, 'bseed': int(ck.rs.randint(2 ** 31)),
                                           'seed': int(ck.rs.randint(2 ** 31)), 'copy': cp})
+    if not ck.replay:       # never group by routine or flavour: every worker interleaves routines, flavours, flags, sizes
+        tasks = [tasks[int(i)] for i in ck.rs.permutation(len(tasks))]
     results = pmap(run_task, tasks)
     ran = {}
     for r in results:
@@ -187,7 +206,8 @@ def main():
         for pred, p, info in r['fails']:
             ck.violation(fn, pred, {'task': t, 'call': '%s(<%s arguments, builder seed %d>%s%s)' % (
                 fn, t['kind'], t['bseed'], ''.join(', %s=%r' % kv for kv in sorted((t.get('flags') or {}).items())),
-                ', copy=False' if t['copy'] is False else ''), 'parameter': p, 'info': info, 'status': r['status']},
+                ', copy=False' if t['copy'] is False else ''), 'parameter': p, 'info': info, 'status': r['status'],
+                'earlier_task': (r.get('earlier') or {}).get(p) if pred == 'argument-modified-by-later-call' else None},
                 {'kind': t['kind'], 'parameter': p})
     ck.dist['functions_exercised'] = len(ran)
     never = sorted(fn for fn, n in ran.items() if n == 0)
